@@ -39,7 +39,13 @@ def cfg : Cfg :=
     ac0First := Gen.C19.onlineAlts == ["AC0/online", "AC/online"]
     batPrefix := Gen.C19.batPrefix
     batInfix := Gen.C19.batInfix
-    noDirNone := Gen.C19.batteryNoDirNone }
+    noDirNone := Gen.C19.batteryNoDirNone
+    probeByPosition := Gen.C19.onlineProbe == "f'/sys/devices/system/cpu/cpu{i}/online'" }
+
+/-- the dead coretemp platform glob: still in the source? (NOT an obligation: the specification is silent
+    about it; the driver hands the model the coretemp files only while the source looks at them) -/
+def coretempGlob : String := "/sys/devices/platform/coretemp.*/hwmon/hwmon*/temp*_*"
+def coretempConsulted : Bool := Gen.C19.tempGlobs.contains coretempGlob
 
 /-- `boot_time()` returns the value it has just read (`return ret`, `ret = float(line.strip().split()[1])`),
     not the remembered module global -/
@@ -84,9 +90,9 @@ def namesAsModelled : Bool :=
   && (Gen.C19.tripNameRule.take 1).map asciiBytes == [47 :: bTripPoint ++ [42]]
   && [Gen.C19.tripKinds.getD 0 "", Gen.C19.tripKinds.getD 2 ""].map asciiBytes == [bCritical, bHigh]
   -- glob patterns: every `hwmonN` / `thermal_zoneN` / `policyN` / `cpuN` directory whatever the number of digits
-  && Gen.C19.tempGlobs == ["/sys/class/hwmon/hwmon*/temp*_*", "/sys/class/hwmon/hwmon*/device/temp*_*",
-                           "/sys/devices/platform/coretemp.*/hwmon/hwmon*/temp*_*", "/sys/class/thermal/thermal_zone*",
-                           "<base + '/trip_point*'>"]
+  && Gen.C19.tempGlobs.filter (· != coretempGlob)
+       == ["/sys/class/hwmon/hwmon*/temp*_*", "/sys/class/hwmon/hwmon*/device/temp*_*",
+           "/sys/class/thermal/thermal_zone*", "<base + '/trip_point*'>"]
   && Gen.C19.fanGlobs == ["/sys/class/hwmon/hwmon*/fan*_*", "/sys/class/hwmon/hwmon*/device/fan*_*"]
   && Gen.C19.cpufreqGlobs == ["/sys/devices/system/cpu/cpufreq/policy[0-9]*", "/sys/devices/system/cpu/cpu[0-9]*/cpufreq"]
   -- boot_time: the value just read is returned (`bootTimeCall true`)
